@@ -77,6 +77,8 @@ def producer_rules(fx, rep, text, sources, floor):
     """sources: list of (module name, origin label, regex over 'rule/key'); runs those property modules with a Forwarder
     so that the selected instances become rule P1 of the calling check"""
     import importlib
+    if isinstance(rep, (Forwarder, Collector)):
+        return 0            # producer rules are not transitive: a forwarded module contributes its own rules only
     rep.rule('P1', text)
     n = 0
     for mod, origin, select in sources:
